@@ -24,6 +24,8 @@ func checkC18(c *Ctx, r *Report) {
 	c17R6as(c, r, "C18.R5.rsa-limits")
 	r.rule("C18.R5.alg-coverage", 2, "every algorithm Generate makes keys for (and Sign signs with) is handled by SIG.Verify")
 	algorithmCoverage(c, r, "C18.R5.alg-coverage", []string{"sign", "SIG.Verify"})
+	r.rule("C18.R2.int-to-bytes", 1, "ECDSA r and s are left-padded to exactly the curve width")
+	intToBytesRule(c, r, "C18.R2.int-to-bytes")
 	r.rule("C18.R1.name-eq", 1, "the signer-name test compares through equal(), which folds exactly A-Z on both sides")
 	foldRule(c, r, "C18.R1.name-eq")
 }
@@ -153,6 +155,53 @@ func c18R1(c *Ctx, r *Report) {
 			}
 		}
 		r.check(len(problems) == 0, "C18.R1.verdict", fmt.Sprintf("SIG.Verify:success#%d", i+1), c.pos(p.Pos), p.Kind, "%s", strings.Join(problems, "; "))
+	}
+	// the public-key decoder is chosen by the KEY's algorithm: each k.publicKeyX() call is made on an edge where
+	// k.Algorithm was compared, or where rr.Algorithm == k.Algorithm was established. The SIG's own algorithm octet
+	// comes off the wire; a decoder that does not fit the key returns nil or a key without a curve
+	{
+		k := paramOf(fn, "k")
+		var problems []string
+		n := 0
+		keyAlg := func(v ssa.Value) bool {
+			fa, ok := v.(*ssa.FieldAddr)
+			if !ok || fieldNameOf(fa) != "Algorithm" {
+				return false
+			}
+			return sliceOf(fa.X)[k] && !anyIn(sliceOf(fa.X), func(x ssa.Value) bool { return x == fn.Params[0] })
+		}
+		for _, ci := range callsIn(fn, "(DNSKEY).publicKeyRSA", "(DNSKEY).publicKeyECDSA", "(DNSKEY).publicKeyED25519") {
+			n++
+			var reached func(b *ssa.BasicBlock, depth int) bool
+			reached = func(b *ssa.BasicBlock, depth int) bool {
+				for _, fc := range factsAt(fn, b) {
+					if anyIn(sliceOf(fc.Atom), keyAlg) {
+						return true
+					}
+				}
+				if depth > 6 || len(b.Preds) == 0 {
+					return false
+				}
+				// a case clause with several constants: every incoming edge is the outcome of a comparison of the key's algorithm
+				for _, p := range b.Preds {
+					if ef, ok := edgeFact(p, b); ok && anyIn(sliceOf(ef.Atom), keyAlg) {
+						continue
+					}
+					if !reached(p, depth+1) {
+						return false
+					}
+				}
+				return true
+			}
+			ok := reached(ci.(ssa.Instruction).Block(), 0)
+			if !ok {
+				problems = append(problems, fmt.Sprintf("%s: %s is reached without a test of the key's own Algorithm: the decoder is chosen by the algorithm octet of the SIG (attacker-chosen), so a SIG naming ECDSA checked against an RSA or Ed25519 key dereferences a key without a curve", c.pos(ci.Pos()), calleeNameSSA(ci.Common())))
+			}
+		}
+		if n < 3 {
+			problems = append(problems, fmt.Sprintf("%d public-key decoder calls, want 3", n))
+		}
+		r.check(len(problems) == 0, "C18.R1.verdict", "SIG.Verify:dispatch-on-key", c.pos(fn.Pos()), "switch k.Algorithm", "%s", strings.Join(problems, "; "))
 	}
 	r.check(len(pts) >= 3, "C18.R1.verdict", "SIG.Verify:success-points", c.pos(fn.Pos()), fmt.Sprint(len(pts)), "only %d success points (RSA, ECDSA, Ed25519 expected)", len(pts))
 	// digest order
